@@ -22,7 +22,7 @@ package server
 //@   ensures [C06,C08 identity.principal] err == nil ==> (id.Principal.Hostname == lastWho.Node.Name &&
 //@        ((len(lastWho.Node.Tags) > 0 && id.Principal.Tags == lastWho.Node.Tags && id.Principal.User == "") ||
 //@         (len(lastWho.Node.Tags) == 0 && id.Principal.User == lastWho.UserProfile.LoginName && len(id.Principal.Tags) == 0)))
-//@   ensures [C01,C08 identity.permissions] err == nil ==> permsFrom(id, lastWho.CapMap)
+//@   ensures [C01,C07,C08 identity.permissions] err == nil ==> permsFrom(id, lastWho.CapMap)
 
 // ---- the JSON front door --------------------------------------------------------------------
 //@ pred hdrOK(r *http.Request) { r.Method == "POST" && headerGet(ref(r.Header), "Content-Type") == "application/json" && headerGet(ref(r.Header), "Sec-X-Tailscale-No-Browsers") == "setec" }
@@ -103,6 +103,7 @@ package server
 // bucket is configured, in a state satisfying its precondition.
 //@ func makeS3Client(ctx, region, bucket, assumeRole) (c, err)
 //@   ensures [C17 s3client.nonnil] err == nil ==> c != nil
+//@   at call s3.NewFromConfig: assert [C17 s3client.an-assumed-role-is-renewed-when-its-session-expires] assumeRole != "" ==> renewsCreds(arg_cfg.Credentials)
 //@ func New(ctx, cfg) (ret, err)
 //@   requires ctx != nil && cfg.Mux != nil && cfg.WhoIs != nil
 //@   requires cfg.DB != nil ==> dbInv(cfg.DB)
